@@ -76,8 +76,8 @@ REPLAY5 = r'''
 #include <string>
 #include <vector>
 using namespace prophy::generated;
-struct Cur { std::vector<int> lens, pres, arms; size_t li, pi, ai; Cur(): li(0), pi(0), ai(0) {}
-             int len() { return lens.at(li++); } bool pres_() { return pres.at(pi++) != 0; } bool pres() { return pres_(); } int arm() { return arms.at(ai++); } };
+struct Cur { std::vector<int> lens, press, arms; size_t li, pi, ai; Cur(): li(0), pi(0), ai(0) {}
+             int len() { return lens.at(li++); } bool pres() { return press.at(pi++) != 0; } int arm() { return arms.at(ai++); } };
 static std::vector<int> csv(const char* s) { std::vector<int> v; if (!*s || !strcmp(s, "-")) return v; const char* p = s; while (*p) { v.push_back(atoi(p)); while (*p && *p != ',') p++; if (*p) p++; } return v; }
 %(builders)s
 template <class T> int run(Cur& c)
@@ -110,7 +110,7 @@ int main(int argc, char** argv)
 {
     if (argc < 5) return 2;
     std::string t = argv[1];
-    Cur c; c.lens = csv(argv[2]); c.pres = csv(argv[3]); c.arms = csv(argv[4]);
+    Cur c; c.lens = csv(argv[2]); c.press = csv(argv[3]); c.arms = csv(argv[4]);
 %(dispatch)s
     return 3;
 }
